@@ -64,7 +64,9 @@ func (r *runner) checkAdmission(pre *preState, submitted *built, accepted bool, 
 			return ctx.Violate("admitted-unacceptable", "unknown-object", "the pool holds %s which the harness never built", hx(h))
 		}
 		how := ""
-		if !direct {
+		if !direct || (submitted != nil && h != submitted.hash) {
+			// not the object this operation submitted: released by the pool itself
+			// (delayed transaction, retry) or an admission that was still in flight
 			how = "/indirect"
 			ctx.Probe("indirect_admission")
 		}
